@@ -12,6 +12,7 @@ SUBJ = {
  "D3": "fix: commit_prove_state detects a fork",
  "D19": "fix: rollback_to_block skips the history",
  "D20": "fix: a reorg removes the pending matched blocks",
+ "D1": "fix: SendBlock checks the body",
  "D8": "fix: the child fast path checks the chain root",
  "D24": "fix: do not prepend overlapping old headers",
 }
